@@ -20,7 +20,7 @@
 //	utxo <addr>:<amt>,<amt>,... ... the unspent outputs the first-run utxo reader selects from, in selection
 //	                                order (references are numbered 0,1,.. along the line); only before the
 //	                                first call of the case -> ok
-//	xf <from> <to> <amount>         XMCache.Transfer -> ok | err
+//	xf <from> <to> <amount>         XMCache.Transfer -> ok | err   (the amount may be negative: -3)
 //	ev <name> <body>                XMCache.AddEvent -> ok
 //	flush                           XMCache.Flush -> ok | err; ends the execution: every later call line
 //	                                (get put del sel xf ev utxo flush) is answered bad-op
@@ -518,8 +518,9 @@ func wellFormed(w []string) bool {
 		return true
 	}
 	switch {
-	case w[0] == "xf" && len(w) == 4:
-		return nat(1, 2, 3)
+	case w[0] == "xf" && len(w) == 4: // the amount may be negative
+		_, ok := natOf(strings.TrimPrefix(w[3], "-"))
+		return nat(1, 2) && ok
 	case w[0] == "ev" && len(w) == 3:
 		return nat(1, 2)
 	}
@@ -793,17 +794,19 @@ func runCase(lines []string) (answers []string, viols []viol, info caseInfo) {
 			switch {
 			case ans == "panic":
 				add("transfer-panic", "%s panicked", line)
-			case amt == 0:
+			case amt <= 0:
 				info.zero++
-				if ans == "ok" {
+				if ans == "ok" && amt == 0 {
 					add("transfer-zero-accepted", "%s was accepted although the amount is zero", line)
+				} else if ans == "ok" {
+					add("transfer-negative-accepted", "%s was accepted although the amount is negative", line)
 				}
 			case len(calls) != 1 || calls[0].from != addrName(from) || calls[0].amount != int64(amt):
 				add("transfer-asks-wrong", "%s asked the utxo reader %d time(s), not once for (%s, %d)", line, len(calls), addrName(from), amt)
 			case calls[0].ok != (ans == "ok"):
 				add("transfer-result-wrong", "%s answered %s although the utxo reader answered ok=%v", line, ans, calls[0].ok)
 			}
-			if amt != 0 && len(calls) == 1 && calls[0].ok && ans == "ok" {
+			if amt > 0 && len(calls) == 1 && calls[0].ok && ans == "ok" {
 				for _, it := range calls[0].handed {
 					expIn = append(expIn, fmt.Sprintf("%d/%d/%d", it.ref, it.owner, it.amt))
 				}
@@ -819,7 +822,7 @@ func runCase(lines []string) (answers []string, viols []viol, info caseInfo) {
 					info.exact++
 					lastFrom[from] = true
 				}
-			} else if amt != 0 && ans != "ok" {
+			} else if amt > 0 && ans != "ok" {
 				info.short++
 			}
 			if rs := c.UTXORWSet().Rset; len(rs) >= nIn {
@@ -1427,6 +1430,9 @@ func randTokenCase(r *xvlib.Rng) []string {
 				}
 			case c == 8:
 				amt = 0
+				if r.Chance(1, 2) {
+					amt = -1 - r.Intn(3)
+				}
 			case c == 9:
 				amt = total + 1 + r.Intn(3)
 			default:
